@@ -350,6 +350,19 @@ func redactPipelineStage(stage interface{}, redactFieldNames bool, keyPath []str
 					}
 				}
 			}
+			if inSearchStage && k == "like" && len(keyPath) > 0 && keyPath[len(keyPath)-1] == "moreLikeThis" {
+				// the documents to compare with are user documents: their keys are field names and
+				// must not be looked up in the search-operator tables (a field called "score",
+				// "path" or "numBuckets" would keep its value)
+				switch vTyped := v.(type) {
+				case *orderedmap.OrderedMap[string, any]:
+					newMap.Set(redactedKey, redactQueryValues(vTyped, redactFieldNames, false, nil, []string{}))
+					continue
+				case []any:
+					newMap.Set(redactedKey, redactArrayValues(vTyped, redactFieldNames, false, false, []string{}))
+					continue
+				}
+			}
 			switch meta := opMeta.(type) {
 			case OperatorType:
 				switch meta {
